@@ -499,7 +499,7 @@ func c16Body(c *fw.Ctx) {
 			c.Nontrivial()
 		}
 	})
-	for _, sp := range []string{"raw-nobase", "raw-base", "product", "edit1-wpt"} {
+	for _, sp := range []string{"raw-nobase", "raw-base", "product", "edit1-wpt", "ascii-sweep"} {
 		if s := c.R.Spaces[sp]; s != nil {
 			c.R.Spaces["noopt-"+sp] = s
 			delete(c.R.Spaces, sp)
@@ -575,12 +575,14 @@ func c16Body(c *fw.Ctx) {
 			}
 		}
 	}
-	forEachParseInput(c, k, kb, t, false, func(label, base, input string) {
-		for ci, cfg := range neutralCfgs {
-			if len(cfg) > 1 && label != "raw-base" && label != "product" && !c.Thorough() {
+	neutralOne := func(label, base, input string, multi bool) {
+		for _, cfg := range neutralCfgs {
+			if (len(cfg) > 1) != multi {
+				continue
+			}
+			if multi && label != "raw-base" && label != "product" && !c.Thorough() {
 				continue // pairs on the with-base and product spaces in the quick tier
 			}
-			_ = ci
 			c.Eval()
 			f, used := c16Neutral(cfg, base, input)
 			if f != nil {
@@ -590,8 +592,24 @@ func c16Body(c *fw.Ctx) {
 				c.Nontrivial()
 			}
 		}
-	})
-	for _, sp := range []string{"raw-nobase", "raw-base", "product", "edit1-wpt"} {
+	}
+	if !c.Thorough() {
+		forEachParseInput(c, k, kb, t, false, func(label, base, input string) {
+			neutralOne(label, base, input, false)
+			neutralOne(label, base, input, true)
+		})
+	} else {
+		// thorough: single options on the large spaces, pairs and triples one symbol shorter
+		forEachParseInput(c, k, kb, t, false, func(label, base, input string) { neutralOne(label, base, input, false) })
+		for _, sp := range []string{"raw-nobase", "raw-base", "product", "edit1-wpt", "ascii-sweep"} {
+			if s := c.R.Spaces[sp]; s != nil {
+				c.R.Spaces["neutral-single-"+sp] = s
+				delete(c.R.Spaces, sp)
+			}
+		}
+		forEachParseInput(c, k-1, kb-1, t-2, false, func(label, base, input string) { neutralOne(label, base, input, true) })
+	}
+	for _, sp := range []string{"raw-nobase", "raw-base", "product", "edit1-wpt", "ascii-sweep"} {
 		if s := c.R.Spaces[sp]; s != nil {
 			c.R.Spaces["neutral-"+sp] = s
 			delete(c.R.Spaces, sp)
